@@ -112,6 +112,18 @@ func fsDone(t *Thread, name string, res string, mutated bool, paths []string, er
 	}
 }
 
+// OpFault, when set, is asked before every mkdirall / rename / removeall / remove / write / read /
+// create / open of the seam; a non-nil answer is returned to the caller INSTEAD of performing the
+// operation (one injected I/O error, chosen by the harness by operation index).
+var OpFault func(op, path string) error
+
+func opFault(op, path string) error {
+	if OpFault == nil {
+		return nil
+	}
+	return OpFault(op, path)
+}
+
 // RenameFault, when set, may make FSRename fail without touching the disk.
 var RenameFault func(a, b string) error
 
@@ -209,7 +221,10 @@ func FSMkdirAll(p string, m os.FileMode) error {
 		}
 	}
 	t := fsOp("mkdirall", mkdirAccs(p))
-	err := os.MkdirAll(p, m)
+	err := opFault("mkdirall", p)
+	if err == nil {
+		err = os.MkdirAll(p, m)
+	}
 	fsDone(t, "mkdirall", fmt.Sprint(p, err == nil), true, []string{p}, err)
 	return err
 }
@@ -222,6 +237,9 @@ func FSRename(a, b string) error {
 	var err error
 	if RenameFault != nil {
 		err = RenameFault(a, b) // environment answer decided by the harness (e.g. EXDEV across a device boundary)
+	}
+	if err == nil {
+		err = opFault("rename", b)
 	}
 	if err == nil {
 		err = os.Rename(a, b)
@@ -251,7 +269,10 @@ func FSRemoveAll(p string) error {
 		}
 	}
 	t := fsOp("removeall", []fsAcc{{path: p, write: true, subtree: true}})
-	err := os.RemoveAll(p)
+	err := opFault("removeall", p)
+	if err == nil {
+		err = os.RemoveAll(p)
+	}
 	fsDone(t, "removeall", fmt.Sprint(p, err == nil), true, []string{p}, err)
 	return err
 }
@@ -261,7 +282,10 @@ func FSRemove(p string) error {
 		return os.Remove(p)
 	}
 	t := fsOp("remove", mut(p))
-	err := os.Remove(p)
+	err := opFault("remove", p)
+	if err == nil {
+		err = os.Remove(p)
+	}
 	fsDone(t, "remove", fmt.Sprint(p, err == nil), true, []string{p}, err)
 	return err
 }
@@ -285,7 +309,10 @@ func FSWriteFile(p string, d []byte, m os.FileMode) error {
 		}
 	}
 	t := fsOp("write", mut(p))
-	err := ioutil.WriteFile(p, d, m)
+	err := opFault("write", p)
+	if err == nil {
+		err = ioutil.WriteFile(p, d, m)
+	}
 	fsDone(t, "write", fmt.Sprint(p, err == nil), true, []string{p}, err)
 	return err
 }
@@ -296,6 +323,11 @@ func FSReadFile(p string) ([]byte, error) {
 	}
 	t := fsOp("read", rd(p))
 	d, err := ioutil.ReadFile(p)
+	if err == nil {
+		if ferr := opFault("read", p); ferr != nil {
+			d, err = nil, ferr
+		}
+	}
 	if ReadFault != nil && err == nil {
 		// environment deviation decided by the harness (a read of an existing file that fails)
 		if ferr := ReadFault(p); ferr != nil {
@@ -316,7 +348,11 @@ func FSCreate(p string) (*os.File, error) {
 		return os.Create(p)
 	}
 	t := fsOp("create", mut(p))
-	f, err := os.Create(p)
+	var f *os.File
+	err := opFault("create", p)
+	if err == nil {
+		f, err = os.Create(p)
+	}
 	fsDone(t, "create", fmt.Sprint(p, err == nil), true, []string{p}, err)
 	return f, err
 }
@@ -326,7 +362,11 @@ func FSOpen(p string) (*os.File, error) {
 		return os.Open(p)
 	}
 	t := fsOp("open", rd(p))
-	f, err := os.Open(p)
+	var f *os.File
+	err := opFault("open", p)
+	if err == nil {
+		f, err = os.Open(p)
+	}
 	fsDone(t, "open", fmt.Sprint(p, err == nil), false, []string{p}, err)
 	return f, err
 }
